@@ -133,6 +133,9 @@ func c08Setup(g *rng, nLoggers int) *c08env {
 			l.SetAttrs(toAttrsShared(la, e)...)
 		}
 		e.loggers, e.recs, e.formats, e.names, e.lattrs = append(e.loggers, l), append(e.recs, rec), append(e.formats, f), append(e.names, name), append(e.lattrs, la)
+		if g.chance(1, 2) {
+			l.SetContextKeys("rid", "trace") // values come from each call's own context
+		}
 		e.std = append(e.std, slog.NewLogLogger(l, slog.InfoLevel))
 		e.sl = append(e.sl, logslog.New(slog.NewSlogHandler(l, &slog.HandlerOptions{NoColor: f != "c", JSON: f == "j", NoSource: true, Level: slog.DebugLevel})))
 	}
@@ -207,6 +210,10 @@ func (e *c08env) issue(c c08call) (panicked string) {
 		e.std[c.logger].Print(c.msg) // the std log bridge: a record without attributes of its own
 	case 8:
 		e.sl[c.logger].Info(c.msg) // log/slog on the adapter, no attributes
+	case 9:
+		// a Context verb: loggers with registered context keys print what this call's context holds
+		ctx := context.WithValue(context.WithValue(context.Background(), "rid", c.id), "trace", len(c.id)) //nolint
+		l.InfoContext(ctx, c.msg, args...)
 	}
 	return
 }
@@ -234,7 +241,7 @@ func c08Stress(seed uint64, tier string, o c08out) {
 		progs := make([][]c08call, G)
 		for gi := range progs {
 			for i := 0; i < N; i++ {
-				c := c08call{logger: g.intn(nLoggers), verb: []int{0, 1, 2, 3, 4, 6, 6, 7, 8}[g.intn(9)], msg: c08Msgs[g.intn(len(c08Msgs))], shape: g.intn(7), id: fmt.Sprintf("g%d-c%d", gi, i)}
+				c := c08call{logger: g.intn(nLoggers), verb: []int{0, 1, 2, 3, 4, 6, 6, 7, 8, 9, 9}[g.intn(11)], msg: c08Msgs[g.intn(len(c08Msgs))], shape: g.intn(7), id: fmt.Sprintf("g%d-c%d", gi, i)}
 				if c.msg != "" || c.verb != 4 {
 					c.msg = fmt.Sprintf("call %s. %s", c.id, c.msg)
 				}
